@@ -2,11 +2,17 @@
    PROVED: the direct-sum construction of MPS addition (row-stacking with the amplitudes folded into the first site, block-diagonal bulk,
    column-stacking at the last site) represents x*a + y*b amplitude by amplitude -- for EVERY chain length >= 2, every bond-dimension profile,
    every local dimension and every configuration (transfer-vector recursion, the one Env2 uses for overlaps).
-   NOT proved: products MPO.MPS / MPO.MPO (Kronecker of virtual legs), conj/transpose/reverse, product states, overlaps with environments:
+   PROVED (Mps/MpoApply.v, over any commutative ring): the product MPO.MPS built site by site (Kronecker product of the two bond spaces, the
+   shared physical index summed) has, at every configuration sigma, the amplitude  sum over sigma' of O(sigma, sigma') * psi(sigma')  -- for EVERY
+   chain length, all bond-dimension profiles of both factors and every local dimension (mixed-product property of the Kronecker product carried
+   through the transfer-vector recursion).  MPO.MPO is the same statement with the second physical index of the right factor carried along.
+   NOT proved: conj/transpose/reverse, product states, overlaps with environments:
    exact correspondence with NumPy on integer-valued MPS/MPO of every operator family and symmetry (tools/checks/C06.py); mps_from_tensor,
    zipper and variational compression (SVD inside) are compared with tolerance. *)
 From Coq Require Import List ZArith.
+From Coq Require Import Ring InitialRing.
 From Yv Require Import Mps.Vec Mps.MpsDense Mps.MpsLaws.
+From Yv Require Mps.MpoApply.
 Import ListNotations.
 Open Scope Z_scope.
 
@@ -34,6 +40,43 @@ Example C06_nonvacuous :
   amplitude (add2 3 (-2) a b) [0%nat; 1%nat] = 3 * amplitude a [0%nat; 1%nat] + (-2) * amplitude b [0%nat; 1%nat].
 Proof. simpl. repeat split; repeat constructor; reflexivity. Qed.
 
+(* --- MPO MpoApply.applied to an MPS --- *)
+Section Product.
+Variable R : Type.
+Variables (r0 r1 : R) (radd rmul rsub : R -> R -> R) (ropp : R -> R).
+Hypothesis Rth : ring_theory r0 r1 radd rmul rsub ropp (@eq R).
+
+(* one step: (a (x) b) . (A (x) B) = (a . A) (x) (b . B) on the fused bond *)
+Theorem C06_kron_mixed dal dbl dbr a b A B l : (0 < dbl)%nat ->
+  MpoApply.vecmat R r0 radd rmul (dal * dbl) (MpoApply.kronv R rmul dbl a b) (MpoApply.kronm R rmul dbl dbr A B) l
+  = MpoApply.kronv R rmul dbr (MpoApply.vecmat R r0 radd rmul dal a A) (MpoApply.vecmat R r0 radd rmul dbl b B) l.
+Proof. exact (MpoApply.kron_mixed R r0 r1 radd rmul rsub ropp Rth dal dbl dbr a b A B l). Qed.
+
+(* whole chains: the amplitude of the product chain is the sum over the contracted configurations of (operator amplitude) * (state amplitude) *)
+Theorem C06_mpo_times_mps d (c : list (MpoApply.psite R)) dwl dal uW uA sigma k :
+  (0 < dal)%nat -> MpoApply.bonds_ok R c -> length sigma = length c ->
+  MpoApply.propP R r0 radd rmul d dwl dal (MpoApply.kronv R rmul dal uW uA) c sigma k
+  = MpoApply.sumconf R r0 radd d (length c)
+      (fun sp => MpoApply.kronv R rmul (MpoApply.lastda R dal c) (MpoApply.transW R r0 radd rmul dwl uW c sigma sp) (MpoApply.transA R r0 radd rmul dal uA c sp) k).
+Proof. exact (MpoApply.product_amplitude R r0 r1 radd rmul rsub ropp Rth d c dwl dal uW uA sigma k). Qed.
+End Product.
+
+(* instance used by the correspondence check: integers *)
+Theorem C06_mpo_times_mps_Z d (c : list (MpoApply.psite Z)) sigma : MpoApply.bonds_ok Z c -> length sigma = length c ->
+  MpoApply.propP Z 0 Z.add Z.mul d 1 1 (MpoApply.kronv Z Z.mul 1 (fun k => if Nat.eqb k 0 then 1 else 0) (fun k => if Nat.eqb k 0 then 1 else 0)) c sigma 0%nat
+  = MpoApply.applied Z 0 Z.add Z.mul d 1 1 (fun k => if Nat.eqb k 0 then 1 else 0) (fun k => if Nat.eqb k 0 then 1 else 0) c sigma 0%nat.
+Proof. intros Hb _. apply (MpoApply.product_represents_application Z 0 1 Z.add Z.mul Z.sub Z.opp Zth d c); [constructor | exact Hb]. Qed.
+
+Example C06_product_nonvacuous :
+  let s1 := {| MpoApply.dw := 2; MpoApply.da := 2; MpoApply.Wm := fun s s' i j => Z.of_nat (s + 2 * s' + i + 3 * j); MpoApply.Am := fun s' i j => Z.of_nat (1 + s' + j) |} in
+  let s2 := {| MpoApply.dw := 1; MpoApply.da := 1; MpoApply.Wm := fun s s' i j => Z.of_nat (1 + s * s' + i); MpoApply.Am := fun s' i j => Z.of_nat (2 + s' * i) |} in
+  MpoApply.bonds_ok Z [s1; s2] /\
+  MpoApply.propP Z 0 Z.add Z.mul 2 1 1 (MpoApply.kronv Z Z.mul 1 (fun k => if Nat.eqb k 0 then 1 else 0) (fun k => if Nat.eqb k 0 then 1 else 0)) [s1; s2] [1%nat; 0%nat] 0%nat = 471.
+Proof. split; [cbn; repeat split; repeat constructor | vm_compute; reflexivity]. Qed.
+
 Print Assumptions C06_add.
+Print Assumptions C06_kron_mixed.
+Print Assumptions C06_mpo_times_mps.
+Print Assumptions C06_mpo_times_mps_Z.
 Print Assumptions C06_block_diagonal.
 Print Assumptions C06_column_stack.
